@@ -25,4 +25,5 @@ pub assume_specification<'a, T: PartialEq<U>, U, A: core::alloc::Allocator>[ <Ve
             a@.len() == 0 && (*b)@.len() == 0 ==> !r;
 // <[T]>::to_vec: an element-wise copy (stated for the length and, for Copy element types, the contents)
 pub assume_specification<T: Clone>[ <[T]>::to_vec ](s: &[T]) -> (r: Vec<T>)
-    ensures r@.len() == s@.len();
+    ensures r@.len() == s@.len(),
+            forall|i: int| 0 <= i < s@.len() ==> vstd::pervasive::cloned::<T>(s@[i], #[trigger] r@[i]);
